@@ -95,6 +95,11 @@ function semValues(rng, p, types, n) {
   }
   return vals;
 }
+// a type assignable to the leaf `t` (declared properties must conform to the index signature)
+function narrowLeaf(rng, t) {
+  if (t instanceof Atom) { if (t.s === "string") return lit("s", rng.pick(["a", "b"])); if (t.s === "number") return lit("n", rng.pick(["1", "2"])); if (t.s === "boolean") return lit("b", A("true")); }
+  return t;
+}
 function genSem(rng, params) {
   const { decls, names } = genDecls(rng);
   const sc = { names };
@@ -115,7 +120,16 @@ function genSem(rng, params) {
     const a = objs.length === 1 ? objs[0] : [A(rng.chance(1, 2) ? "union" : "inter"), ...objs];
     expr = [A("keyof"), a]; text = `keyof ${tsOf(a)}`; types = [A("string"), a];
   } else { // indexed access
-    if (rng.chance(2, 3)) {
+    if (rng.chance(1, 4)) {
+      // objects with a string index signature, indexed by a union of a declared and an UNDECLARED key: every member
+      // contributes the declared property's type for the first and its index-signature type for the second
+      const mk = () => { const iv = genLeaf(rng); const declared = rng.chance(2, 3) ? [["a", A("false"), rng.chance(1, 2) ? iv : narrowLeaf(rng, iv)]] : []; return [A("obj"), declared, [A("string"), rng.chance(1, 2) ? [A("union"), iv, genLeaf(rng)] : iv]]; };
+      const o1 = mk(), o2 = mk();
+      const a = rng.chance(1, 2) ? [A("union"), o1, o2] : o1;
+      const keys = rng.pick([["a", "zzz"], ["zzz"], ["zzz", "a"], ["a", "zzz", "y"]]).map((k) => lit("s", k));
+      const k = keys.length === 1 ? keys[0] : [A("union"), ...keys];
+      expr = [A("idx"), a, k]; text = `(${tsOf(a)})[${tsOf(k)}]`; types = [a, o1[2][1], o2[2][1], ...o1[1].map((m) => m[2])];
+    } else if (rng.chance(2, 3)) {
       const o = genObj(rng, 2, sc);
       const ks = o[1].map((m) => m[0]);
       if (!ks.length) { o[1].push(["a", A("false"), genLeaf(rng)]); ks.push("a"); }
